@@ -643,6 +643,39 @@ func compScenarios(a map[string]string) *compScenario {
 				}
 			},
 		}
+	case "globberdep":
+		// a DEPENDENT globber: it globs after ALL items of its dependency port have arrived (k upstream tasks)
+		k, _ := strconv.Atoi(a["k"])
+		files := srcItems("s", k)
+		return &compScenario{
+			desc: fmt.Sprintf("globber-dependent/upstream-tasks=%d", k),
+			maxT: 2,
+			setup: func() {
+				for _, f := range files {
+					os.WriteFile(f, []byte(f), 0644)
+				}
+			},
+			build: func(wf *sp.Workflow) {
+				s := components.NewFileSource(wf, "src", files...)
+				mk := wf.NewProc("mk", "cat {i:in} > {o:out}")
+				mk.SetOut("out", "gen_{i:in|basename}")
+				mk.In("in").From(s.Out())
+				g := components.NewFileGlobberDependent(wf, "glob", "gen_*.txt")
+				g.InDependency().From(mk.Out("out"))
+				newRecorder(wf, "rec").InPort("in").From(g.Out())
+			},
+			oracle: func(o *Obs, add func(class, detail string)) {
+				want := []string{}
+				for _, f := range files {
+					want = append(want, "gen_"+f)
+				}
+				sort.Strings(want)
+				got := received(o.Notes)["rec"]
+				if strings.Join(got, ",") != strings.Join(want, ",") {
+					add("globber", fmt.Sprintf("dependent globber emitted [%s]; files matching gen_*.txt once all upstream tasks are done: [%s]", strings.Join(got, ","), strings.Join(want, ",")))
+				}
+			},
+		}
 	case "globber":
 		pat := a["pattern"]
 		tree := strings.Split(a["tree"], ",")
